@@ -584,7 +584,7 @@ def harness(ctx):
     h = vlib.build_harness(ctx, 'h_starttlsr')
     if not h or not ca:
         return None, None
-    return h, dict(vlib.ENV, H_CA_PEM=ca)
+    return h, dict(vlib.ENV, H_CA_PEM=ca, H_SCRATCH=ctx.scratch)
 
 
 def differential(ctx, name, h, env, cases):
